@@ -128,6 +128,14 @@ pub fn fill(seed: u32, len: usize) -> Vec<u8> {
         SEED_ONES => out.iter_mut().for_each(|b| *b = 0xff),
         SEED_ASCII => out.iter_mut().for_each(|b| *b = b'a' + (*b % 26)),
         SEED_CRLF => out.iter_mut().enumerate().for_each(|(i, b)| *b = b"\r\n\r\n\0\r\nQUIT\n"[i % 12]),
+        SEED_TLS => {
+            let pat: &[u8] = b"\x16\x03\x01\x02\x00\x01\x00\x01\xfc\x03\x03";
+            out.iter_mut().enumerate().for_each(|(i, b)| *b = pat[i % pat.len()])
+        }
+        SEED_HTTP => {
+            let pat: &[u8] = b"GET / HTTP/1.1\r\nHost: example.org\r\n\r\n";
+            out.iter_mut().enumerate().for_each(|(i, b)| *b = pat[i % pat.len()])
+        }
         _ => {}
     }
     out
@@ -138,15 +146,25 @@ pub const SEED_ASCII: u32 = 0xffff_fffe;
 /// the v2 signature repeated (content that looks like the start of a nested header)
 pub const SEED_CRLF: u32 = 0xffff_fffd;
 
+/// the start of a TLS ClientHello record, repeated (what really follows a PROXY header on a TLS port)
+pub const SEED_TLS: u32 = 0xffff_fffc;
+/// an HTTP request head, repeated
+pub const SEED_HTTP: u32 = 0xffff_fffa;
+/// (TLV values only, see bld::tlv_value) the value is itself the encoding of a TLV of the same type
+pub const SEED_NESTED: u32 = 0xffff_fffb;
+
 /// A fill seed from the tape: mostly random content, but one value in four is one of the content classes
 /// (all zero / all 0xFF / ASCII letters / signature bytes) that pure random bytes never produce.
 pub fn gen_seed(t: &mut Tape) -> u32 {
-    match t.weighted(&[12, 2, 1, 1, 1]) {
+    match t.weighted(&[24, 4, 2, 2, 2, 1, 1, 1]) {
         0 => t.u32() | 1,
         1 => 0,
         2 => SEED_ONES,
         3 => SEED_ASCII,
-        _ => SEED_CRLF,
+        4 => SEED_CRLF,
+        5 => SEED_TLS,
+        6 => SEED_HTTP,
+        _ => SEED_NESTED,
     }
 }
 
